@@ -6,7 +6,12 @@ use cluster::Cluster;
 use fxhash::FxBuildHasher;
 use lru::LruCache;
 use std::num::NonZeroUsize;
+#[cfg(not(jubako_verif_loom))]
 use std::sync::{Arc, Mutex, OnceLock};
+#[cfg(jubako_verif_loom)]
+use crate::bases::verif_sync::Mutex;
+#[cfg(jubako_verif_loom)]
+use std::sync::{Arc, OnceLock};
 use uuid::Uuid;
 
 use super::ByteRegion;
@@ -52,6 +57,15 @@ impl ContentPack {
             reader,
             check_info: OnceLock::new(),
         })
+    }
+
+    /// Change the number of clusters kept in the cache. Verification only.
+    #[cfg(jubako_verif)]
+    pub fn set_cluster_cache_size_verif(&self, size: usize) {
+        self.cluster_cache
+            .lock()
+            .unwrap()
+            .resize(NonZeroUsize::new(size).unwrap());
     }
 
     pub fn get_content_count(&self) -> ContentCount {
